@@ -51,6 +51,22 @@
 // discarded for this purpose; at most six runs): a real defect is deterministic
 // there (the waits involved are >= 200 ms), a starved process is not.
 //
+// Shutdown as an abort ("gives up once the exporter is shut down, never blocks
+// beyond that"): two exporters are designed to abort an in-flight export.
+// otlptracehttp.Stop closes stopCh immediately and contextWithStop cancels the
+// export context, i.e. the abort happens when Shutdown is CALLED;
+// otlptracegrpc.Stop waits for the export (it holds tscMu for reading during
+// the whole retry loop) until the context given to Shutdown expires and then
+// cancels stopCtx, which exportContext ties to the export context, i.e. the
+// abort happens at the DEADLINE of Shutdown's context. For these two the plans
+// shutdown_abort_wait (10 min back-off wait after answer 0) and
+// shutdown_abort_attempt (attempt K held by the collector) call Shutdown with a
+// 200 / 300 ms deadline and assert that both Shutdown and Export (with an
+// error) are back by deadline + 3 s and that no attempt arrives after Shutdown
+// returned. The case is abandoned at that moment, so nothing runs for minutes.
+// The other four exporters get only the bounded variant (shutdown_in_wait with
+// a 400 ms back-off); what they do is recorded as a class label.
+//
 // Readings of the statement (conservative):
 //   - "exporter shut down": asserted relative to the moment Shutdown RETURNED.
 //     Exporters whose Shutdown waits for the in-flight export (metric
@@ -111,11 +127,14 @@ type Case struct {
 	MaxElapsedMS  int    `json:"max_elapsed_ms"` // 0 = unlimited
 	TimeoutMS     int    `json:"timeout_ms"`     // 0 = option not passed (default 10 s)
 	Gzip          bool   `json:"gzip"`
-	// Plan: none | pre_cancelled | cancel_in_attempt | cancel_in_wait | shutdown_in_wait
+	// Plan: none | pre_cancelled | cancel_in_attempt | cancel_in_wait | shutdown_in_wait |
+	// shutdown_abort_wait | shutdown_abort_attempt (the two trace exporters only: Shutdown
+	// with a short deadline while the export sits in a wait / an attempt that only an abort ends)
 	Plan        string `json:"plan"`
-	PlanK       int    `json:"plan_k"`        // attempt index the plan is tied to
-	PlanDelayMS int    `json:"plan_delay_ms"` // pause between the trigger and cancel()/Shutdown()
-	Items       int    `json:"items"`         // spans / metrics / records in the payload
+	PlanK       int    `json:"plan_k"`                // attempt index the plan is tied to
+	PlanDelayMS int    `json:"plan_delay_ms"`         // pause between the trigger and cancel()/Shutdown()
+	ShutdownMS  int    `json:"shutdown_ms,omitempty"` // deadline of the context handed to Shutdown (0 = 50 ms)
+	Items       int    `json:"items"`                 // spans / metrics / records in the payload
 }
 
 const (
@@ -128,6 +147,7 @@ const (
 	quietJitter     = 25 * time.Millisecond // a run whose canary timers were later than this is "noisy"
 	shortTimeout    = 2000                  // ms: timeouts up to this are "short" (may legitimately cut attempts)
 	shutdownGrace   = 50 * time.Millisecond
+	abortSlack      = 3 * time.Second // Shutdown deadline + this: Shutdown and the aborted Export must both be back
 )
 
 // ---------------------------------------------------------------------
@@ -396,7 +416,7 @@ func genCase(isGRPC bool) func(*rapid.T) Case {
 			c.RetryEnabled, c.InitialMS, c.MaxIntervalMS = true, 1, 5
 			c.MaxElapsedMS = oneOf(t, "max_elapsed_ms", elapsed...)
 		}
-		scenario := pick(t, "scenario", 46, 10, 4, 10, 16, 14)
+		scenario := pick(t, "scenario", 46, 10, 4, 10, 16, 14, 8)
 		switch scenario {
 		case 0: // plain
 			if rng(t, "retry_disabled", 0, 6) == 0 {
@@ -431,6 +451,29 @@ func genCase(isGRPC bool) func(*rapid.T) Case {
 			default: // waits of 5..15 min: only the cancellation ends them
 				c.RetryEnabled, c.InitialMS, c.MaxIntervalMS, c.MaxElapsedMS = true, 600000, 600000, 0
 			}
+		case 6:
+			// Shutdown with a short deadline while the export is stuck in
+			// something only an abort can end. Only for the two exporters whose
+			// Shutdown is designed to abort the in-flight export:
+			//   otlptracehttp: Stop closes stopCh at once; contextWithStop cancels the
+			//     export context => abort at the moment Shutdown is CALLED;
+			//   otlptracegrpc: Stop waits for the export (tscMu) until the Shutdown
+			//     context expires, then stopFunc() cancels stopCtx, exportContext cancels
+			//     the export context => abort at the Shutdown context's DEADLINE.
+			if isGRPC {
+				c.Exporter = "otlptracegrpc"
+			} else {
+				c.Exporter = "otlptracehttp"
+			}
+			c.ShutdownMS = oneOf(t, "shutdown_ms", 200, 300)
+			if rapid.Bool().Draw(t, "abort_in_wait") {
+				c.Plan = "shutdown_abort_wait"
+				c.RetryEnabled, c.InitialMS, c.MaxIntervalMS, c.MaxElapsedMS = true, 600000, 600000, 0
+			} else {
+				c.Plan = "shutdown_abort_attempt"
+				fast(0, 5000)
+				c.TimeoutMS = oneOf(t, "timeout_ms", 0, 30000)
+			}
 		default:
 			c.Plan = "shutdown_in_wait"
 			if rapid.Bool().Draw(t, "slow_backoff") {
@@ -448,9 +491,9 @@ func genCase(isGRPC bool) func(*rapid.T) Case {
 			n = 3
 		}
 		switch c.Plan {
-		case "cancel_in_attempt":
+		case "cancel_in_attempt", "shutdown_abort_attempt":
 			c.PlanK = rng(t, "plan_k", 0, n-1)
-		case "cancel_in_wait", "shutdown_in_wait":
+		case "cancel_in_wait", "shutdown_in_wait", "shutdown_abort_wait":
 			maxK := n - 1
 			if maxK > 2 {
 				maxK = 2
@@ -477,9 +520,9 @@ func genCase(isGRPC bool) func(*rapid.T) Case {
 				} else {
 					st = g.innerStep(t)
 				}
-			case c.Plan == "cancel_in_attempt" && i == c.PlanK:
+			case (c.Plan == "cancel_in_attempt" || c.Plan == "shutdown_abort_attempt") && i == c.PlanK:
 				st = Step{Kind: "hold", RetryInfoMS: -1}
-			case (c.Plan == "cancel_in_wait" || c.Plan == "shutdown_in_wait") && i == c.PlanK:
+			case (c.Plan == "cancel_in_wait" || c.Plan == "shutdown_in_wait" || c.Plan == "shutdown_abort_wait") && i == c.PlanK:
 				st = g.retryableStep(t)
 				if isGRPC && !slowBackoff && rapid.Bool().Draw(t, "long_wait") {
 					st.RetryInfoMS = 300 // makes the wait long enough for the plan to land inside it
@@ -544,7 +587,7 @@ func finite(c Case) bool {
 	for i, st := range c.Script {
 		switch st.Kind {
 		case "hold":
-			if !(short || (c.Plan == "cancel_in_attempt" && c.PlanK == i)) {
+			if !(short || (c.Plan == "cancel_in_attempt" && c.PlanK == i) || (c.Plan == "shutdown_abort_attempt" && c.PlanK == i)) {
 				return false
 			}
 		case "status", "partial", "reset", "slow":
@@ -559,16 +602,31 @@ func finite(c Case) bool {
 		}
 	}
 	if c.RetryEnabled && c.MaxIntervalMS > 5000 || c.RetryEnabled && c.InitialMS > 5000 {
-		if !(c.Plan == "cancel_in_wait" && c.PlanK == 0) {
+		if !((c.Plan == "cancel_in_wait" || c.Plan == "shutdown_abort_wait") && c.PlanK == 0) {
 			return false
 		}
 	}
 	switch c.Plan {
 	case "none", "pre_cancelled", "cancel_in_attempt", "cancel_in_wait", "shutdown_in_wait":
+	case "shutdown_abort_wait", "shutdown_abort_attempt":
+		// unbounded waits / held attempts under Shutdown only where Shutdown is meant to abort them
+		if c.Exporter != "otlptracehttp" && c.Exporter != "otlptracegrpc" {
+			return false
+		}
 	default:
 		return false
 	}
+	if c.ShutdownMS < 0 || c.ShutdownMS > 2000 {
+		return false
+	}
 	return c.PlanDelayMS >= 0 && c.PlanDelayMS <= 100
+}
+
+func shutdownDeadline(c Case) time.Duration {
+	if c.ShutdownMS > 0 {
+		return time.Duration(c.ShutdownMS) * time.Millisecond
+	}
+	return shutdownGrace
 }
 
 // budget is an upper estimate of what the script can legitimately cost.
@@ -603,24 +661,26 @@ func budget(c Case) time.Duration {
 }
 
 type observation struct {
-	entries    []entry
-	start      time.Duration
-	returned   bool
-	ret        time.Duration
-	err        error
-	cancelAt   time.Duration // moment cancel() returned, -1 = never called
-	shutdownAt time.Duration // moment Shutdown() returned, -1 = never called
-	planFired  bool
-	handled    []string
-	tag        string
-	setupErr   error
-	jitter     time.Duration // worst lateness of the canary's 1 ms timers during the run
+	entries          []entry
+	start            time.Duration
+	returned         bool
+	ret              time.Duration
+	err              error
+	cancelAt         time.Duration // moment cancel() returned, -1 = never called
+	shutdownAt       time.Duration // moment Shutdown() returned, -1 = never called / still blocked
+	shutdownCalledAt time.Duration // moment Shutdown() was called, -1 = never
+	abortOverrun     bool          // abort plan: Export was not back abortSlack after Shutdown's deadline
+	planFired        bool
+	handled          []string
+	tag              string
+	setupErr         error
+	jitter           time.Duration // worst lateness of the canary's 1 ms timers during the run
 }
 
 func execute(c Case) (ob observation) {
 	installHandler()
 	ex := exporters[c.Exporter]
-	ob = observation{cancelAt: -1, shutdownAt: -1}
+	ob = observation{cancelAt: -1, shutdownAt: -1, shutdownCalledAt: -1}
 	ob.tag = fmt.Sprintf("c14-r%d", runSeq.Add(1))
 	col := newCollector(ex.signal, ex.grpc, c.Script, ob.tag)
 	var addr string
@@ -670,8 +730,17 @@ func execute(c Case) (ob observation) {
 		ob.cancelAt = t
 		mu.Unlock()
 	}
+	abortPlan := c.Plan == "shutdown_abort_wait" || c.Plan == "shutdown_abort_attempt"
+	abortCh := make(chan struct{})
 	doShutdown := func() {
-		sctx, sc := context.WithTimeout(context.Background(), shutdownGrace)
+		d := shutdownDeadline(c)
+		mu.Lock()
+		ob.shutdownCalledAt = col.now()
+		mu.Unlock()
+		if abortPlan {
+			time.AfterFunc(d+abortSlack, func() { close(abortCh) })
+		}
+		sctx, sc := context.WithTimeout(context.Background(), d)
 		_ = h.shutdown(sctx)
 		sc()
 		t := col.now()
@@ -696,8 +765,14 @@ func execute(c Case) (ob observation) {
 				fire(doCancel)
 			}
 		}
-	case "shutdown_in_wait":
+	case "shutdown_in_wait", "shutdown_abort_wait":
 		col.onRespond = func(step int) {
+			if step == c.PlanK {
+				fire(doShutdown)
+			}
+		}
+	case "shutdown_abort_attempt":
+		col.onArrive = func(step int) {
 			if step == c.PlanK {
 				fire(doShutdown)
 			}
@@ -745,18 +820,47 @@ func execute(c Case) (ob observation) {
 	case r := <-done:
 		ob.returned, ob.err, ob.ret = true, r.err, r.at
 	case <-limit.C:
+	case <-abortCh:
+		ob.abortOverrun = true
+	}
+	// the plan's goroutine (cancel / Shutdown) is waited for, but never for long:
+	// a Shutdown that is still blocked stays "not returned" in the observation.
+	planDone := make(chan struct{})
+	go func() { planWG.Wait(); close(planDone) }()
+	waitPlan := func(d time.Duration) {
+		t := time.NewTimer(d)
+		defer t.Stop()
+		select {
+		case <-planDone:
+		case <-t.C:
+		}
 	}
 	if ob.returned {
-		planWG.Wait()
+		if abortPlan {
+			select {
+			case <-planDone:
+			case <-abortCh: // closed abortSlack after the deadline of a Shutdown that was called
+			case <-limit.C:
+			}
+		} else {
+			waitPlan(blockMargin)
+		}
 		cancel()
 		sctx, sc := context.WithTimeout(context.Background(), 2*time.Second)
 		_ = h.shutdown(sctx)
 		sc()
 		stop()
 	} else {
-		// give up on the blocked call: release what can be released and leave
-		// the goroutine behind (the case is a violation anyway).
+		// give up on the blocked call (the case is a violation anyway):
+		// cancelling the context releases everything that honours it.
 		cancel()
+		t := time.NewTimer(2 * time.Second)
+		select {
+		case <-done:
+		case <-t.C:
+		}
+		t.Stop()
+		waitPlan(2 * time.Second)
 		stop()
 	}
 	mu.Lock()
@@ -774,6 +878,8 @@ type hintObs struct {
 }
 
 var timingKinds = map[string]bool{
+	"export_not_aborted_by_shutdown":            true,
+	"shutdown_blocked_beyond_deadline":          true,
 	"attempt_after_max_elapsed":                 true,
 	"attempt_although_hint_exceeds_max_elapsed": true,
 	"attempt_after_cancel":                      true,
@@ -810,7 +916,21 @@ func evaluate(c Case, ob observation) []vk.Violation {
 			es[i].Outcome = oAbandoned
 		}
 	}
-	if !ob.returned {
+	abortPlan := c.Plan == "shutdown_abort_wait" || c.Plan == "shutdown_abort_attempt"
+	if abortPlan && ob.shutdownCalledAt >= 0 {
+		// Shutdown(ctx with a short deadline) was called while the export sat in
+		// a wait / an attempt that only an abort ends: both calls must be back
+		// by the deadline plus (generous) abortSlack, the export with an error.
+		d := shutdownDeadline(c)
+		by := ob.shutdownCalledAt + d + abortSlack
+		if !ob.returned || ob.ret > by {
+			bad("export_not_aborted_by_shutdown", "Export was still running %v after Shutdown (deadline %v) was called", d+abortSlack, d)
+		}
+		if ob.shutdownAt < 0 || ob.shutdownAt > by {
+			bad("shutdown_blocked_beyond_deadline", "Shutdown had not returned %v after it was called with a deadline of %v", d+abortSlack, d)
+		}
+	}
+	if !ob.returned && !ob.abortOverrun {
 		bad("export_blocked_beyond_budget", "Export did not return within the script's budget %v + %v", budget(c), blockMargin)
 	}
 	shortTO := c.TimeoutMS > 0 && c.TimeoutMS <= shortTimeout
@@ -941,6 +1061,36 @@ func classify(c Case, ob observation) vk.Info {
 	info.Class(fmt.Sprintf("attempts=%d", len(es)))
 	info.Class("plan=" + c.Plan)
 	info.ClassIf(c.Plan != "none" && ob.planFired, "plan_fired")
+	if ob.shutdownCalledAt >= 0 && ob.returned && (c.Plan == "shutdown_abort_wait" || c.Plan == "shutdown_abort_attempt") && ob.shutdownAt >= 0 {
+		info.Class("shutdown_abort/" + c.Exporter + "=export_aborted_within_deadline+slack")
+	}
+	if c.Plan == "shutdown_in_wait" && c.InitialMS >= 100 && ob.shutdownCalledAt >= 0 && ob.returned {
+		// Observation only: what does Shutdown(ctx, 50 ms deadline) do to an
+		// export that sits in a bounded (200..600 ms) back-off wait?
+		after := func(t time.Duration) bool {
+			for _, e := range es {
+				if e.Arrive > t+slackAfter {
+					return true
+				}
+			}
+			return false
+		}
+		what := "other"
+		switch {
+		case ob.shutdownAt < 0:
+			what = "shutdown_still_blocked_after_export_returned"
+		case after(ob.shutdownAt):
+			what = "shutdown_returns_export_keeps_retrying"
+		case after(ob.shutdownCalledAt) && ob.shutdownAt+slackAfter >= ob.ret:
+			what = "shutdown_waits_for_export_which_keeps_retrying"
+		case !after(ob.shutdownCalledAt) && ob.err != nil:
+			what = "shutdown_aborts_export"
+		}
+		info.Class("shutdown_bounded_400ms/" + c.Exporter + "=" + what)
+		if ob.shutdownAt >= 0 && ob.shutdownAt-ob.shutdownCalledAt > shutdownDeadline(c)+slackAfter {
+			info.Class("shutdown_bounded_400ms/" + c.Exporter + "=shutdown_overran_its_own_deadline")
+		}
+	}
 	switch {
 	case !c.RetryEnabled:
 		info.Class("retry=disabled")
@@ -1129,7 +1279,7 @@ var known = map[string]func(Case, vk.Violation) bool{
 }
 
 const ruleCommon = "one export per case against a scripted loopback collector; script of 1..7 answers, retry config {disabled, 1ms/5ms backoff with MaxElapsedTime 0/20ms/500ms/5s, 400ms backoff, 10min backoff}, " +
-	"exporter timeout {default, 15s/30s, 100/200ms with held requests}, gzip on/off, plan {none, ctx cancelled before, cancel while attempt K is held, cancel / Shutdown after answer K}; " +
+	"exporter timeout {default, 15s/30s, 100/200ms with held requests}, gzip on/off, plan {none, ctx cancelled before, cancel while attempt K is held, cancel / Shutdown after answer K, and for the two trace exporters Shutdown(200/300 ms deadline) during a 10 min back-off wait / a held attempt}; " +
 	"non-trivial = the script contains a retryable answer followed by something; distinct = distinct case encodings"
 
 func TestHTTPRetry(t *testing.T) {
